@@ -297,3 +297,92 @@ Module Refuted.
   Proof. split; [vm_compute; reflexivity | vm_compute; discriminate]. Qed.
 End Refuted.
 
+
+(* ---- conditional-format rules ---------------------------------------------------------------------
+   A rule whose every formula slot is the display text (active configuration) of a tree inside the
+   proved part is stored with every slot in English: the stored slots are the English prints of the
+   same trees, slot by slot, for every rule kind. *)
+Section CfProofs.
+  Variable m_act : pmode.  Variable nm_act : names.
+  Variable m_en : pmode.   Variable nm_en : names.
+  Variable env : penv.
+  Notation to_int := (user_formula_to_internal m_act nm_act m_en nm_en env).
+
+  (* a typed slot: the active display print of a tree the active parser returns *)
+  Definition slot_ok (ts : list token) (e : ast) : Prop :=
+    image m_act nm_act env e = true /\ no_bad (pm_xlsx m_act) e = true /\ lower_stable nm_act e = true /\
+    ts = print m_act nm_act e.
+
+  Lemma to_internal_slot ts e : slot_ok ts e -> to_int ts = Ok (print m_en nm_en e).
+  Proof.
+    intros (Hi & Hb & Hl & ->). unfold user_formula_to_internal.
+    rewrite (roundtrip_parse m_act nm_act env e Hi Hb Hl). reflexivity.
+  Qed.
+
+  Lemma cfvos_slots_internal (l : list cfvo) (es : list ast) :
+    Forall2 slot_ok (cfvo_slots l) es ->
+    exists l', cfvos_to_internal m_act nm_act m_en nm_en env l = Ok l' /\ cfvo_slots l' = map (print m_en nm_en) es.
+  Proof.
+    revert es. induction l as [|c l IH]; intros es H; cbn [cfvo_slots flat_map] in H.
+    - inversion H; subst. exists []. split; reflexivity.
+    - destruct c as [f|t]; cbn [app] in H.
+      + inversion H as [|ts e l0 es' Hs Hr]; subst. destruct (IH es' Hr) as (l' & E & S).
+        exists (CvFormula (print m_en nm_en e) :: l'). cbn [cfvos_to_internal cfvo_to_internal obind].
+        rewrite (to_internal_slot _ _ Hs). cbn [obind]. rewrite E. cbn [obind]. split; [reflexivity|].
+        cbn [cfvo_slots flat_map app map]. fold (cfvo_slots l'). rewrite S. reflexivity.
+      + destruct (IH es H) as (l' & E & S). exists (CvOther t :: l').
+        cbn [cfvos_to_internal cfvo_to_internal obind]. rewrite E. cbn [obind]. split; [reflexivity|].
+        cbn [cfvo_slots flat_map app]. exact S.
+  Qed.
+
+  Theorem cf_rule_stored_in_english (r : cf_input) (es : list ast) :
+    Forall2 slot_ok (cf_slots r) es ->
+    exists r', cf_rule_input_to_internal m_act nm_act m_en nm_en env r = Ok r' /\
+               cf_slots r' = map (print m_en nm_en) es.
+  Proof.
+    destruct r as [f f2|f|ts|mn mx|ts|ts|t]; cbn [cf_slots]; intro H.
+    - inversion H as [|ts0 e l0 es' Hs Hr]; subst. destruct f2 as [g|]; cbn [opt_list] in Hr.
+      + inversion Hr as [|ts1 e2 l1 es2 Hs2 Hr2]; subst. inversion Hr2; subst.
+        eexists. cbn [cf_rule_input_to_internal obind opt_to_internal].
+        rewrite (to_internal_slot _ _ Hs). cbn [obind]. rewrite (to_internal_slot _ _ Hs2). cbn [obind]. split; reflexivity.
+      + inversion Hr; subst. eexists. cbn [cf_rule_input_to_internal obind opt_to_internal].
+        rewrite (to_internal_slot _ _ Hs). cbn [obind]. split; reflexivity.
+    - inversion H as [|ts0 e l0 es' Hs Hr]; subst. inversion Hr; subst. eexists.
+      cbn [cf_rule_input_to_internal obind]. rewrite (to_internal_slot _ _ Hs). cbn [obind]. split; reflexivity.
+    - destruct (cfvos_slots_internal ts es H) as (l' & E & S). exists (CfColorScale l').
+      cbn [cf_rule_input_to_internal]. rewrite E. cbn [obind]. split; [reflexivity | exact S].
+    - (* DataBar: min and max are optional thresholds *)
+      destruct (cfvos_slots_internal (opt_list mn ++ opt_list mx) es H) as (l' & E & S).
+      destruct mn as [a|], mx as [b|]; cbn [opt_list app cfvos_to_internal] in E;
+        cbn [cf_rule_input_to_internal opt_to_internal obind].
+      + destruct (cfvo_to_internal _ _ _ _ _ a) as [a'| |]; cbn [obind] in E |- *; try discriminate E.
+        destruct (cfvo_to_internal _ _ _ _ _ b) as [b'| |]; cbn [obind] in E |- *; try discriminate E.
+        injection E as <-. exists (CfDataBar (Some a') (Some b')). split; [reflexivity | exact S].
+      + destruct (cfvo_to_internal _ _ _ _ _ a) as [a'| |]; cbn [obind] in E |- *; try discriminate E.
+        injection E as <-. exists (CfDataBar (Some a') None). split; [reflexivity | exact S].
+      + destruct (cfvo_to_internal _ _ _ _ _ b) as [b'| |]; cbn [obind] in E |- *; try discriminate E.
+        injection E as <-. exists (CfDataBar None (Some b')). split; [reflexivity | exact S].
+      + injection E as <-. exists (CfDataBar None None). split; [reflexivity | exact S].
+    - destruct (cfvos_slots_internal ts es H) as (l' & E & S). exists (CfIconSet l').
+      cbn [cf_rule_input_to_internal]. rewrite E. cbn [obind]. split; [reflexivity | exact S].
+    - destruct (cfvos_slots_internal ts es H) as (l' & E & S). exists (CfIconRating l').
+      cbn [cf_rule_input_to_internal]. rewrite E. cbn [obind]. split; [reflexivity | exact S].
+    - inversion H; subst. exists (CfOther t). split; reflexivity.
+  Qed.
+End CfProofs.
+
+(* non-vacuity: CellIs Between, bounds =SUMME(A1;1,5) and =MAX(2,5;0) typed in German with a comma locale at A1 *)
+Module CfExample.
+  Definition a1 := ERef None (Some 0) {| p_row := 0; p_col := 0; p_abs_col := false; p_abs_row := false |}.
+  Definition b1 : ast := EFun 80 [a1; ENum [49; 46; 53]].
+  Definition b2 : ast := EFun 70 [ENum [50; 46; 53]; ENum [48]].
+  Definition de11 := m_display false 1 1.
+  Definition en11 := m_display true 1 1.
+  Definition rule := CfCellIs (print de11 (names_of 1) b1) (Some (print de11 (names_of 1) b2)).
+  Lemma slots_ok : Forall2 (slot_ok de11 (names_of 1) Example.env1) (cf_slots rule) [b1; b2].
+  Proof. repeat constructor; vm_compute; reflexivity. Qed.
+  Lemma stored :
+    cf_rule_input_to_internal de11 (names_of 1) en11 (names_of 0) Example.env1 rule
+    = Ok (CfCellIs (print en11 (names_of 0) b1) (Some (print en11 (names_of 0) b2))).
+  Proof. vm_compute. reflexivity. Qed.
+End CfExample.
